@@ -1030,6 +1030,22 @@ class BTreePage(Page):
                 fragment_index += 1
             last_accounted_for_offset = cell.end_offset
 
+        # The bytes between the last cell or freeblock and the end of the page are a fragment as well
+        if aggregated_cells and last_accounted_for_offset < self.size:
+            file_offset = self.offset + last_accounted_for_offset
+            fragment = Fragment(
+                self._version_interface,
+                self.page_version_number,
+                file_offset,
+                self.number,
+                page,
+                fragment_index,
+                last_accounted_for_offset,
+                self.size,
+            )
+            self.fragments.append(fragment)
+            self.calculated_fragment_total_byte_size += fragment.byte_size
+
         if self.header.number_of_fragmented_free_bytes > PAGE_FRAGMENT_LIMIT:
             log_message = (
                 "The number of fragmented free bytes: {} is greater than the page fragment limit: {} "
